@@ -5,38 +5,26 @@ package skchia
 import (
 	"fmt"
 	"testing"
-	"time"
 
 	"massnet.org/mass/zz_verif/vk"
 )
 
 func TestK2Timing(t *testing.T) {
 	r := vk.Start("C09", "model_checking")
-	var tNew, tDo, tInv, tClose time.Duration
-	sc := k2Scenario{Name: "x", Family: "b", Initial: "RR", Cfg: "none", ChanCap: 8, MaxChan: 2, Horizon: 9, MaxInFlight: 1, Alphabet: k2Alphabet(2, k2BulkB, false, false, nil)}
+	sc := k2Scenario{Name: "b-RR-none", Family: "b", Initial: "RR", Cfg: "none", ChanCap: 8, MaxChan: 2, Horizon: 19, MaxInFlight: 1, Alphabet: k2Alphabet(2, k2BulkB, false, false, nil)}
 	c := k2NewCtx(r, "C09", sc, true, false)
-	N := 200
-	for i := 0; i < N; i++ {
-		t0 := time.Now()
-		k := k2New("RR", "none", 8)
-		t1 := time.Now()
-		for _, a := range []k2Action{{Kind: "op", Op: "plot", WS: 0}, {Kind: "gate", Name: "idle", WS: -1}, {Kind: "gate", Name: "popped", WS: -1}, {Kind: "op", Op: "mine", WS: 1}} {
-			k.do(a)
+	k := k2New("RR", "none", 8)
+	for _, n := range []string{"mine(a)", "gate:idle", "stop(a)", "gate:popped", "gate:step1.done", "gate:plot.returned"} {
+		var en []string
+		for _, e := range k.enabled(sc.Alphabet, sc.MaxChan, sc.MaxInFlight) {
+			en = append(en, e.String())
 		}
-		t2 := time.Now()
-		for j := range k.model {
-			k.model[j].State = k.ws[j].state
-		}
-		c.invariants(k, k2Action{Kind: "init"}, nil, -1)
-		t3 := time.Now()
-		k.close()
-		t4 := time.Now()
-		tNew += t1.Sub(t0)
-		tDo += t2.Sub(t1)
-		tInv += t3.Sub(t2)
-		tClose += t4.Sub(t3)
+		fmt.Printf("VERIF-DBG before %s: enabled=%v states=%v\n", n, en, k.wsStates())
+		a := c.acts[c.parse(n)]
+		_, ok := c.step(k, a, true, nil, c.parse(n))
+		fmt.Printf("VERIF-DBG after %s: ok=%v states=%v model=%+v viols=%d\n", n, ok, k.wsStates(), k.model, r.ViolationCount())
 	}
-	fmt.Printf("VERIF-TIMING new=%v do4=%v inv=%v close=%v\n", tNew/time.Duration(N), tDo/time.Duration(N), tInv/time.Duration(N), tClose/time.Duration(N))
+	k.close()
 	r.DistinctN(2)
-	r.Finish("timing")
+	r.Finish("debug")
 }
